@@ -305,6 +305,39 @@ pub fn run(ctx: &Ctx) -> Report {
     });
     st = st.merge(st_g);
 
+    // (m) dot segments at every depth: 0 .. 300 and 511, 512, 1000, 4095, 4096, 10 000 plain segments kept ahead of a
+    //     '.' or '..' in four spellings (and ahead of a climb of as many '..' as there are segments, plus one), both modes
+    {
+        let mut depths: Vec<usize> = (0..=300).collect();
+        depths.extend([511, 512, 513, 1000, 4095, 4096, 4097, 10_000]);
+        let tails = ["/./x", "/../x", "/%2e/x", "/%2E%2e/x", "/.", "/..", "/.%2E/", "/a/../../x"];
+        let n_m = (depths.len() * tails.len() * 2) as u64;
+        let off_m = total_a + n_b + n_f + nh * nh + 9_500_000;
+        let st_m = par_sweep(n_m + depths.len() as u64 * 2, |i, st| {
+            if i >= n_m {
+                // climb back over every segment, and one more
+                let k = (i - n_m) as usize;
+                let d = depths[k / 2];
+                let over = k % 2 == 1;
+                let path = format!("{}{}", "/s".repeat(d), "/..".repeat(d + over as usize));
+                let label = eval(off_m + i, &path, false, st);
+                st.outcome(&format!("depth-climb:{}", label));
+                return;
+            }
+            let mut x = i as usize;
+            let s3 = x % 2 == 1;
+            x /= 2;
+            let tail = tails[x % tails.len()];
+            let d = depths[x / tails.len()];
+            let path = format!("{}{}", "/s".repeat(d), tail);
+            let label = eval(off_m + i, &path, s3, st);
+            if i % 64 == 0 {
+                st.outcome(&format!("depth:{}:{}", if s3 { "s3" } else { "std" }, label));
+            }
+        });
+        st = st.merge(st_m);
+    }
+
     // (l) two or three letters of the segment alphabet written together as ONE segment (a dot segment followed by a bad
     //     escape, an escaped dot followed by a truncated escape, ...), alone, as the last and as a middle segment, in
     //     both modes: a segment is a dot segment only if it is exactly one, and a bad escape is refused wherever it is
@@ -434,7 +467,7 @@ pub fn run(ctx: &Ctx) -> Report {
     Report {
         stats: st,
         rule: format!(
-            "all paths of 0..={} segments over the {}-symbol alphabet {:?} x trailing slash x {{standard,S3}}; every ASCII byte literal (3 contexts), every 2-byte UTF-8 char literal, every %XX in 4 hex-case spellings, every two-character escape %c1c2 over ASCII^2 (2 contexts), '%' followed by every pair over 10 units incl. 2/3/4-byte characters, 40 special paths; every path of <= {} segments behind a first segment padded to {} lengths (0..5000 bytes, every length 56..70 and 1020..1026) canonicalised in both modes back to back on one thread, in both orders; every ordered pair over 78 (path, mode) symbols of related paths (prefixes / extensions, escape-case and separator variants, 90-byte and 30-segment paths differing only at the end) back to back on one thread; first segments of {} lengths between 10 000 and 200 000 bytes (around 21 845 = 65 535/3, 32 768 and 65 536) made of plain, to-be-escaped and escaped bytes, followed by 10 dot-segment tails; every pair of adjacent escapes %XX%YY (all 65 536) inside a segment and as a segment, both modes; every two and three letters of the segment alphabet (plus 9 more bad-escape shapes) written together as one segment, alone / last / in the middle, both modes; 5 path heads (climbing above the root, plain, relative, ...) followed by an ASCII run of every length 0..300 and then 2-, 3- and 4-byte characters (a multi-byte character across every byte offset up to 300) in both modes; 11 methods x 5 request targets ('*', '/', dot segments, bad escape, above root) signed over the reference normal form ('/' where there is none) on both carriers; plus end-to-end signing of all <=3-segment paths, each without a body, with a folded form body and with an empty folded form; plus 8 paths whose normal form differs between the modes (or exists in one only) x both modes x the server configured for every AWS region code / pseudo-region (62) x every service signing name (70, the S3 family included) x carrier — the mode is what the caller configured, whatever the names mean to AWS. states = distinct (mode, reference normal form | error class); non-trivial = input differs from its normal form or is refused",
+            "all paths of 0..={} segments over the {}-symbol alphabet {:?} x trailing slash x {{standard,S3}}; every ASCII byte literal (3 contexts), every 2-byte UTF-8 char literal, every %XX in 4 hex-case spellings, every two-character escape %c1c2 over ASCII^2 (2 contexts), '%' followed by every pair over 10 units incl. 2/3/4-byte characters, 40 special paths; every path of <= {} segments behind a first segment padded to {} lengths (0..5000 bytes, every length 56..70 and 1020..1026) canonicalised in both modes back to back on one thread, in both orders; every ordered pair over 78 (path, mode) symbols of related paths (prefixes / extensions, escape-case and separator variants, 90-byte and 30-segment paths differing only at the end) back to back on one thread; first segments of {} lengths between 10 000 and 200 000 bytes (around 21 845 = 65 535/3, 32 768 and 65 536) made of plain, to-be-escaped and escaped bytes, followed by 10 dot-segment tails; every pair of adjacent escapes %XX%YY (all 65 536) inside a segment and as a segment, both modes; 8 dot-segment tails behind 0 .. 300, 511 .. 513, 1000, 4095 .. 4097 and 10 000 plain segments (and a climb back over all of them, and one more), both modes; every two and three letters of the segment alphabet (plus 9 more bad-escape shapes) written together as one segment, alone / last / in the middle, both modes; 5 path heads (climbing above the root, plain, relative, ...) followed by an ASCII run of every length 0..300 and then 2-, 3- and 4-byte characters (a multi-byte character across every byte offset up to 300) in both modes; 11 methods x 5 request targets ('*', '/', dot segments, bad escape, above root) signed over the reference normal form ('/' where there is none) on both carriers; plus end-to-end signing of all <=3-segment paths, each without a body, with a folded form body and with an empty folded form; plus 8 paths whose normal form differs between the modes (or exists in one only) x both modes x the server configured for every AWS region code / pseudo-region (62) x every service signing name (70, the S3 family included) x carrier — the mode is what the caller configured, whatever the names mean to AWS. states = distinct (mode, reference normal form | error class); non-trivial = input differs from its normal form or is refused",
             max_segs, SEGMENTS.len(), SEGMENTS, short_segs, pad_lens.len(), big_lens.len()
         ),
         bounds: json!({"max_segments": max_segs, "alphabet": SEGMENTS.len(), "modes": 2}),
